@@ -133,4 +133,210 @@ def getVectorHeader (b : Bytes) : Res Nat :=
     | .error e => .error e
     | .ok (n, r') => if toInt32 n < 0 then .error .invalidLength else .ok (n, r')
 
+/-! ### Extensions for C20/C22 (signed views, 128/256-bit ints, double, header of the bytes form) -/
+
+/-- `Buffer.PutInt32` / `PutInt` (Go converts with `int32(v)`, i.e. modulo 2^32). -/
+def putInt32 (i : Int) : Bytes := putU32 (ofInt32 i)
+/-- `Buffer.PutLong` / `PutInt53`. -/
+def putInt64 (i : Int) : Bytes := putU64 (ofInt64 i)
+/-- `Buffer.PutDouble`: the value is its IEEE-754 bit pattern (`math.Float64bits`). -/
+def putDouble (bits : Nat) : Bytes := putU64 bits
+/-- `Buffer.PutInt128` (`v` is the 16-byte array). -/
+def putInt128 (v : Bytes) : Bytes := v
+/-- `Buffer.PutInt256` (`v` is the 32-byte array). -/
+def putInt256 (v : Bytes) : Bytes := v
+/-- `Buffer.PutString`: `encodeString` is `encodeBytes` on the string's bytes. -/
+def putString (v : Bytes) : Bytes := putBytes v
+/-- `Buffer.Put`. -/
+def putRaw (v : Bytes) : Bytes := v
+
+def int128Size : Nat := 16
+def int256Size : Nat := 32
+
+/-- `Buffer.Int32` / `Buffer.Int`. -/
+def getInt32 (b : Bytes) : Res Int :=
+  match getU32 b with
+  | .error e => .error e
+  | .ok (v, r) => .ok (toInt32 v, r)
+
+/-- `Buffer.Long` / `Buffer.Int53`. -/
+def getInt64 (b : Bytes) : Res Int :=
+  match getU64 b with
+  | .error e => .error e
+  | .ok (v, r) => .ok (toInt64 v, r)
+
+/-- `Buffer.Double` (bit pattern of the result). -/
+def getDouble (b : Bytes) : Res Nat := getU64 b
+/-- `Buffer.Int128`. -/
+def getInt128 (b : Bytes) : Res Bytes := getN int128Size b
+/-- `Buffer.Int256`. -/
+def getInt256 (b : Bytes) : Res Bytes := getN int256Size b
+/-- `Buffer.String`. -/
+def getString (b : Bytes) : Res Bytes := getBytes b
+
+/-- The length prefix written by `encodeBytes`/`encodeString` for a value of `l` bytes. -/
+def bytesHeader (l : Nat) : Bytes :=
+  if l ≤ maxSmall then [UInt8.ofNat l]
+  else [UInt8.ofNat firstLong, UInt8.ofNat l, UInt8.ofNat (l / 256), UInt8.ofNat (l / 65536)]
+
+/-- Number of zero bytes appended after a value of `l` bytes. -/
+def bytesPad (l : Nat) : Nat :=
+  if l ≤ maxSmall then padded (l + 1) - (l + 1) else padded (l + 4) - (l + 4)
+
+/-- Bytes consumed by a decoder: input length minus what is left. -/
+def consumed (input rest : Bytes) : Nat := input.length - rest.length
+
+/-! ### Panic-explicit layer
+
+Go slice expressions, indexing, `binary.LittleEndian.UintXX` and `make` panic when their bounds
+are violated.  `Out` adds that third outcome; the `go*` primitives below carry exactly Go's checks
+(with `len` in place of `cap` for the upper bound of a slice expression, which is the stricter
+reading).  The `…P` decoders transliterate /repo/bin/decode.go, string.go, bytes.go statement by
+statement *using only these primitives*, so "the decoder never panics" is the theorem
+`…P b = Out.ofExcept (… b)` (Lemmas/Bin.lean): the bounds checks written in the Go code are
+sufficient for every slice operation that follows them. -/
+
+inductive Out (α : Type) where
+  | ok (a : α)
+  | err (e : Err)
+  | panic
+  deriving Repr, DecidableEq
+
+def Out.bind {α β : Type} (x : Out α) (f : α → Out β) : Out β :=
+  match x with
+  | .ok a => f a
+  | .err e => .err e
+  | .panic => .panic
+
+instance : Monad Out where
+  pure := Out.ok
+  bind := Out.bind
+
+def Out.ofExcept {α : Type} : Except Err α → Out α
+  | .ok a => .ok a
+  | .error e => .err e
+
+def Out.isPanic {α : Type} : Out α → Bool
+  | .panic => true
+  | _ => false
+
+/-- `b[i]`. -/
+def goIdx (b : Bytes) (i : Nat) : Out UInt8 :=
+  match b[i]? with
+  | some x => .ok x
+  | none => .panic
+
+/-- `b[lo:]`. -/
+def goFrom (b : Bytes) (lo : Nat) : Out Bytes :=
+  if lo ≤ b.length then .ok (b.drop lo) else .panic
+
+/-- `b[lo:hi]`. -/
+def goSlice (b : Bytes) (lo hi : Nat) : Out Bytes :=
+  if lo ≤ hi ∧ hi ≤ b.length then .ok ((b.drop lo).take (hi - lo)) else .panic
+
+/-- `binary.LittleEndian.Uint32(b)` (`_ = b[3]`). -/
+def goLE32 (b : Bytes) : Out Nat :=
+  if 4 ≤ b.length then .ok (fromLE (b.take 4)) else .panic
+
+/-- `binary.LittleEndian.Uint64(b)` (`_ = b[7]`). -/
+def goLE64 (b : Bytes) : Out Nat :=
+  if 8 ≤ b.length then .ok (fromLE (b.take 8)) else .panic
+
+/-- `make([]byte, n)` for a Go `int` `n`. -/
+def goMake (n : Int) : Out Bytes :=
+  if n < 0 then .panic else .ok (zeros n.toNat)
+
+/-- `Buffer.PeekID`. -/
+def peekIDP (b : Bytes) : Out Nat :=
+  if b.length < word then .err .eof else goLE32 b
+
+/-- `Buffer.Uint32` / `ID`. -/
+def getU32P (b : Bytes) : Out (Nat × Bytes) := do
+  let v ← peekIDP b
+  let r ← goFrom b word
+  pure (v, r)
+
+/-- `Buffer.Uint64`. -/
+def getU64P (b : Bytes) : Out (Nat × Bytes) :=
+  if b.length < word * 2 then .err .eof
+  else do
+    let v ← goLE64 b
+    let r ← goFrom b (word * 2)
+    pure (v, r)
+
+/-- `Buffer.Int32` / `Int`. -/
+def getInt32P (b : Bytes) : Out (Int × Bytes) := do
+  let (v, r) ← getU32P b
+  pure (toInt32 v, r)
+
+/-- `Buffer.Long` / `Int53`. -/
+def getInt64P (b : Bytes) : Out (Int × Bytes) := do
+  let (v, r) ← getU64P b
+  pure (toInt64 v, r)
+
+/-- `Buffer.Bool`. -/
+def getBoolP (b : Bytes) : Out (Bool × Bytes) := do
+  let v ← peekIDP b
+  if v = typeTrue then
+    let r ← goFrom b word
+    pure (true, r)
+  else if v = typeFalse then
+    let r ← goFrom b word
+    pure (false, r)
+  else .err .unexpectedID
+
+/-- `Buffer.ConsumeID`. -/
+def consumeIDP (id : Nat) (b : Bytes) : Out (Unit × Bytes) := do
+  let v ← peekIDP b
+  if v = id then
+    let r ← goFrom b word
+    pure ((), r)
+  else .err .unexpectedID
+
+/-- `Buffer.VectorHeader`. -/
+def getVectorHeaderP (b : Bytes) : Out (Nat × Bytes) := do
+  let (_, r) ← consumeIDP typeVector b
+  let (n, r') ← getU32P r
+  if toInt32 n < 0 then .err .invalidLength else pure (n, r')
+
+/-- `Buffer.PeekN` + `ConsumeN` / `Int128` / `Int256` (`copy(dst, b.Buf[:n])`, `b.Buf[n:]`). -/
+def getNP (n : Nat) (b : Bytes) : Out (Bytes × Bytes) :=
+  if b.length < n then .err .eof
+  else do
+    let v ← goSlice b 0 n
+    let r ← goFrom b n
+    pure (v, r)
+
+/-- `bin.decodeBytes` / `decodeString`. -/
+def decodeBytesP (b : Bytes) : Out (Nat × Bytes) :=
+  if b.length = 0 then .err .eof
+  else do
+    let b0 ← goIdx b 0
+    if b0.toNat = firstLong then
+      if b.length < 4 then .err .eof
+      else do
+        let b1 ← goIdx b 1
+        let b2 ← goIdx b 2
+        let b3 ← goIdx b 3
+        let strLen := b1.toNat + 256 * (b2.toNat + 256 * b3.toNat)
+        if b.length < strLen + 4 then .err .eof
+        else do
+          let v ← goSlice b 4 (strLen + 4)
+          pure (padded (strLen + 4), v)
+    else
+      let strLen := b0.toNat
+      if b.length < strLen + 1 then .err .eof
+      else if strLen > maxSmall then .err .invalidLength
+      else do
+        let v ← goSlice b 1 (strLen + 1)
+        pure (padded (strLen + 1), v)
+
+/-- `Buffer.Bytes` / `Buffer.String`. -/
+def getBytesP (b : Bytes) : Out (Bytes × Bytes) := do
+  let (n, v) ← decodeBytesP b
+  if b.length < n then .err .eof
+  else do
+    let r ← goFrom b n
+    pure (v, r)
+
 end TdModel.Bin
